@@ -4,6 +4,8 @@ From Coq Require Import List ZArith NArith Lia Bool Arith.
 From Coq.Strings Require Import Byte.
 From Coq Require Import String.
 From L3 Require Import Tls.
+From L3 Require Setup Filter.
+From Coq Require String.
 From L3 Require Settings.
 From L3G Require SettingsTable.
 Import ListNotations.
@@ -35,6 +37,9 @@ Proof. exact Settings.c17_setter_touches_one_field. Qed.
 Theorem c17_setters_commute : forall (val : Type) (m1 m2 : string) (v1 v2 : val) (s : Settings.store val) (g : string), m1 <> m2 -> Settings.setter val m1 v1 (Settings.setter val m2 v2 s) g = Settings.setter val m2 v2 (Settings.setter val m1 v1 s) g.
 Proof. exact Settings.c17_setters_commute. Qed.
 
+Theorem c17_ldapi_starttls_rejected : forall (h : option (list Coq.Init.Byte.byte)) (p : option N) (st : Setup.settings), Setup.starttls st = true -> Setup.plan_of Setup.repaired18 (Filter.s2b "ldapi"%string) h p st = Setup.PErr Setup.EStartTlsUnix.
+Proof. exact Setup.c17_ldapi_starttls_rejected. Qed.
+
 Print Assumptions c17_tls_when_requested.
 Print Assumptions c17_cleartext_only_starttls.
 Print Assumptions c17_nonzero_rc_fails.
@@ -44,3 +49,4 @@ Print Assumptions c17_preface_bytes_dropped.
 Print Assumptions c17_settings_table.
 Print Assumptions c17_setter_touches_one_field.
 Print Assumptions c17_setters_commute.
+Print Assumptions c17_ldapi_starttls_rejected.
